@@ -32,6 +32,14 @@ impl<Ctx> Bundle<Ctx> for ColourEncoding {
             if want_icc {
                 Self::IccProfile(colour_space)
             } else {
+                if colour_space == ColourSpace::Unknown {
+                    // Nothing describes the colour space: an unknown colour space needs an ICC
+                    // profile.
+                    tracing::error!("Unknown colour space without embedded ICC profile");
+                    return Err(Error::ValidationFailed(
+                        "unknown colour space without embedded ICC profile",
+                    ));
+                }
                 let white_point = if colour_space == ColourSpace::Xyb {
                     WhitePoint::D65
                 } else {
